@@ -6,7 +6,6 @@ import (
 
 	"verif/harness/core"
 	"verif/harness/genlab"
-	"verif/harness/idlm"
 )
 
 func init() { checks["C06"] = c06 }
@@ -19,22 +18,6 @@ func offSet(r *core.Run) map[string]bool {
 		}
 	}
 	return m
-}
-
-func safeSem(r *core.Run) func(i uint64, rng *core.Rand) idlm.SemOpts {
-	off := offSet(r)
-	return func(i uint64, rng *core.Rand) idlm.SemOpts {
-		return idlm.SemOpts{MaxFiles: 4, MaxDefs: 6, Services: true, Constants: true, Defaults: true, Dirs: rng.Chance(2, 3), ForGen: true,
-			GoAnns: rng.Chance(2, 3), Redact: rng.Chance(1, 2), PkgNameClash: rng.Chance(1, 3), ServiceBias: rng.Chance(1, 3), ChainMode: rng.Chance(1, 6), ManyTypes: rng.Chance(1, 5), Off: off}
-	}
-}
-
-func anyCLI(i uint64, rng *core.Rand) genlab.CLIOpts {
-	o := genlab.CLIOpts{NoZap: rng.Chance(1, 3), StrictEnumText: rng.Chance(1, 3), PerModule: rng.Chance(1, 4), InferRoot: rng.Chance(1, 4)}
-	if rng.Chance(1, 8) {
-		o.OutputFile = "types.go"
-	}
-	return o
 }
 
 func c06(r *core.Run) {
@@ -63,16 +46,7 @@ func c06(r *core.Run) {
 				}
 				from, to = r.ReplayIndex, r.ReplayIndex+1
 			}
-			spec := genlab.Spec{Stream: stream, From: from, To: to, Sem: safeSem(r), CLI: anyCLI,
-				Layout: func(i uint64, rng *core.Rand) idlm.Layout {
-					if rng.Chance(1, 4) {
-						return idlm.WildLayout
-					}
-					return idlm.PlainLayout
-				}}
-			if hostile {
-				spec.Mutate = func(i uint64, rng *core.Rand, p *idlm.Program) { idlm.MakeHostile(p, rng) }
-			}
+			spec := genlab.NamedSpec(stream, offSet(r), from, to)
 			b := genlab.Generate(r, thriftrw, fmt.Sprintf("%s-%d", stream, from), spec)
 			out, _ := b.BuildAll()
 			if strings.Contains(out, "verif/harness") && strings.Contains(out, "cannot find") {
